@@ -739,6 +739,44 @@ fn family_c03(ctx: &mut Ctx) {
     } else {
         cfgs.push(("high", 8192, 8192, 2));
     }
+    // every round-level structure of the payload generator (lane masks, a common zero block, footers / headers), on every
+    // engine: identical recovery bytes, and every engine decodes
+    for kind in 0..util::ROUND_KINDS {
+        for (rate, k, r, sb) in [("high", 5usize, 3usize, 192usize), ("low", 3, 5, 130), ("high", 9, 8, 64)] {
+            if !ctx.thorough && (kind as usize + k + ctx.seed as usize) % 3 == 2 {
+                continue;
+            }
+            let ded = Some(if rate == "high" { Kind::High } else { Kind::Low });
+            let tag = 0x3C00 + ctx.counter;
+            let orig: Vec<Vec<u8>> = (0..k).map(|i| util::payload_with(ctx.seed, tag, i as u64, sb, Some(kind))).collect();
+            let mut digs = Obj::new();
+            let mut rec0: Option<Vec<Vec<u8>>> = None;
+            for e in &engines {
+                ops::poison_on(ctx.seed ^ ctx.counter);
+                let res = with_engine!(*e, E, { encode_round::<E>(ded, k, r, &orig) });
+                ctx.counter += 1;
+                match res {
+                    Ok(rec) => {
+                        let parts: Vec<&[u8]> = rec.iter().map(Vec::as_slice).collect();
+                        digs = digs.str(e, &format!("{}:{:016x}", rec.len(), util::fnv_many(parts)));
+                        if rec0.is_none() {
+                            rec0 = Some(rec);
+                        }
+                    }
+                    Err(f) => digs = digs.str(e, &format!("FAIL {f}")),
+                }
+            }
+            ctx.trace.line(&Obj::new().str("ev", "xenc").str("rate", rate).us("k", k).us("r", r).us("sb", sb).int("payload_kind", kind as i64).raw("digs", &digs.done()).done());
+            if let Some(rec) = rec0 {
+                if rec.len() == r {
+                    let pats = patterns(&mut rng, k, r, 0);
+                    for e in &engines {
+                        dec_event(ctx, e, ded, k, r, &orig, &rec, &pats[1], &[0, k - 1, k]);
+                    }
+                }
+            }
+        }
+    }
     for (ci, (rate, k, r, sb)) in cfgs.into_iter().enumerate() {
         let ded = Some(if rate == "high" { Kind::High } else { Kind::Low });
         if (k + r) * sb > 40000 {
@@ -1007,6 +1045,111 @@ fn family_twins(ctx: &mut Ctx) {
                     };
                     ctx.trace.line(&o.done());
                     ctx.bump("dec/twin");
+                }
+                if let Some(f) = fail {
+                    if !f.is_empty() {
+                        ctx.trace.line(&Obj::new().str("ev", "twinfail").raw("fail", &f).done());
+                    }
+                }
+            }
+        }
+    }
+}
+
+/// Rate-swap twins: one decoder's working space handed from a codec of one rate to a codec of the OTHER rate with the same
+/// counts (the two rates lay the same counts out at different work positions), the second round offering the same index
+/// sets or the MIRRORED ones (original i <-> recovery i), which occupy exactly the work positions of the first round.
+fn family_rate_swap(ctx: &mut Ctx) {
+    use crate::dut::DecObj;
+    use std::panic::{catch_unwind, AssertUnwindSafe};
+    let engines = ctx.engines.clone();
+    let mut rng = util::rng(ctx.seed, 0x5a9);
+    let mut case = 0usize;
+    for k in [3usize, 5, 6, 9, 17, 33] {
+        let r = k;
+        for (from, to) in [(Kind::High, Kind::Low), (Kind::Low, Kind::High)] {
+            for mirrored in [true, false] {
+                case += 1;
+                if !ctx.thorough && (case + ctx.seed as usize) % 3 == 2 {
+                    continue;
+                }
+                let e = engines[case % engines.len()];
+                let sb = *[2usize, 66, 64].choose(&mut rng).unwrap();
+                let nlost = rng.gen_range(1..k);
+                let mut idx: Vec<usize> = (0..k).collect();
+                idx.shuffle(&mut rng);
+                let lost: BTreeSet<usize> = idx.iter().copied().take(nlost).collect();
+                idx.shuffle(&mut rng);
+                let g_r: Vec<usize> = idx.iter().copied().take(nlost).collect();
+                let g_o: Vec<usize> = (0..k).filter(|i| !lost.contains(i)).collect();
+                let sets: [(Vec<usize>, Vec<usize>); 2] = if mirrored { [(g_o.clone(), g_r.clone()), (g_r.clone(), g_o.clone())] } else { [(g_o.clone(), g_r.clone()), (g_o.clone(), g_r.clone())] };
+                ops::poison_on(ctx.seed ^ (0x5a90 + case as u64));
+                type Out = Result<(Vec<(usize, Vec<u8>)>, usize), String>;
+                let mut rounds: Vec<(Kind, &'static str, Vec<Vec<u8>>, Out)> = Vec::new();
+                let res = with_engine!(e, E, {
+                    catch_unwind(AssertUnwindSafe(|| {
+                        let mut d = DecObj::<E>::new(from, k, r, sb).map_err(|x| util::err_json(&x))?;
+                        for ri in 0..2 {
+                            let kind = if ri == 0 { from } else { to };
+                            let rate = if kind == Kind::High { "high" } else { "low" };
+                            if ri == 1 {
+                                d = d.rehouse(to, k, r, sb).map_err(|x| util::err_json(&x))?;
+                            }
+                            let orig = originals(ctx.seed, 0x5a00 + (case * 2 + ri) as u64, k, sb);
+                            let rec = crate::dut::ref_encode(rate, k, r, &orig);
+                            let out: Out = (|| {
+                                for i in &sets[ri].0 {
+                                    d.add_original(*i, &orig[*i]).map_err(|x| util::err_json(&x))?;
+                                }
+                                for j in &sets[ri].1 {
+                                    d.add_recovery(*j, &rec[*j]).map_err(|x| util::err_json(&x))?;
+                                }
+                                let result = d.decode().map_err(|x| util::err_json(&x))?;
+                                let mut it = result.restored_original_iter();
+                                let mut v = Vec::new();
+                                for (i, s) in it.by_ref() {
+                                    v.push((i, s.to_vec()));
+                                }
+                                let again = (0..3).filter(|_| it.next().is_some()).count();
+                                Ok((v, again))
+                            })();
+                            rounds.push((kind, rate, orig, out));
+                        }
+                        Ok::<(), String>(())
+                    }))
+                });
+                let fail = match res {
+                    Ok(Ok(())) => None,
+                    Ok(Err(f)) => Some(f),
+                    Err(p) => Some(util::panic_json(&util::panic_message(&*p))),
+                };
+                for (ri, (kind, rate, orig, out)) in rounds.into_iter().enumerate() {
+                    let id = ctx.next_id();
+                    let giv: BTreeSet<usize> = sets[ri].0.iter().copied().collect();
+                    let missing: Vec<(usize, &[u8])> = (0..k).filter(|i| !giv.contains(i)).map(|i| (i, orig[i].as_slice())).collect();
+                    let mut o = Obj::new()
+                        .str("ev", "dec")
+                        .int("id", id as i64)
+                        .str("kind", kind.name())
+                        .str("engine", e)
+                        .str("rate", rate)
+                        .us("k", k)
+                        .us("r", r)
+                        .us("sb", sb)
+                        .uss("gO", sets[ri].0.iter())
+                        .uss("gR", sets[ri].1.iter())
+                        .int("twin", ri as i64)
+                        .bool("swap", true)
+                        .raw("odig", &digest_list(&missing));
+                    o = match out {
+                        Ok((v, again)) => {
+                            let items: Vec<(usize, &[u8])> = v.iter().map(|(i, b)| (*i, b.as_slice())).collect();
+                            o.raw("restored", &digest_list(&items)).raw("probes", "[]").us("again", again)
+                        }
+                        Err(f) => o.raw("fail", &f),
+                    };
+                    ctx.trace.line(&o.done());
+                    ctx.bump("dec/swap");
                 }
                 if let Some(f) = fail {
                     if !f.is_empty() {
@@ -1392,7 +1535,10 @@ pub fn main(args: &Args) -> i32 {
             "c08" => family_c08(&mut ctx),
             "c09" => family_c09(&mut ctx),
             "c10" => family_c10(&mut ctx),
-            "twins" => family_twins(&mut ctx),
+            "twins" => {
+                family_twins(&mut ctx);
+                family_rate_swap(&mut ctx);
+            }
             "c11" => family_c11(&mut ctx),
             "c12" => family_c12(&mut ctx),
             "c13" => {
